@@ -15,6 +15,7 @@ import (
 // functions, fields and types the rules talk about. Everything except the exported
 // API method names is discovered structurally on every run.
 type MapModel struct {
+	Funcs    []*ssa.Function // all functions of the program (for call-site queries)
 	Name     string // type name: "Map" / "MapOf"
 	Iface    string // cache-level interface it implements
 	Type     *types.Named
@@ -312,7 +313,7 @@ func lockBitCleared(v ssa.Value) bool {
 
 func (m *Model) buildMap(named *types.Named, iface string) *MapModel {
 	p := m.P
-	mm := &MapModel{Name: named.Obj().Name(), Iface: iface, Type: named, Methods: p.methodsOf(named)}
+	mm := &MapModel{Funcs: p.Funcs, Name: named.Obj().Name(), Iface: iface, Type: named, Methods: p.methodsOf(named)}
 	bad := func(f string, a ...interface{}) { mm.Problems = append(mm.Problems, fmt.Sprintf(f, a...)) }
 	for _, n := range mapAPI {
 		if mm.Methods[n] == nil {
@@ -538,6 +539,9 @@ func (m *Model) buildMap(named *types.Named, iface string) *MapModel {
 						if op == "Load" {
 							atomicLoad = true
 						}
+						if op == "Store" {
+							plainStore = true // a typed atomic counter updated by Load + Store: not a read-modify-write
+						}
 					}
 				}
 				if _, ok := in.(*ssa.Store); ok {
@@ -545,7 +549,7 @@ func (m *Model) buildMap(named *types.Named, iface string) *MapModel {
 				}
 			})
 			switch {
-			case atomicLoad && res.Len() == 1:
+			case atomicLoad && res.Len() == 1 && !plainStore && !atomicAdd:
 				mm.SumSize = f
 			case (atomicAdd || plainStore) && res.Len() == 0:
 				// counter update helpers: told apart by who calls them (writers vs the resize copy loop)
@@ -728,6 +732,14 @@ func (m *Model) buildMap(named *types.Named, iface string) *MapModel {
 				}
 			}
 		})
+	}
+	// one counter-update helper used by writers and by the resize copy alike: it plays both roles (whether it may - an
+	// atomic add is fine everywhere, a plain or load+store update of a published table is not - is the rules' business)
+	if mm.AddSize == nil && mm.AddPlain != nil {
+		mm.AddSize = mm.AddPlain
+	}
+	if mm.AddPlain == nil && mm.AddSize != nil {
+		mm.AddPlain = mm.AddSize
 	}
 	for n, f := range map[string]*ssa.Function{"newTable": mm.NewTable, "addSize": mm.AddSize, "addSizePlain": mm.AddPlain, "sumSize": mm.SumSize, "resizeInProgress": mm.InProg, "newerTableExists": mm.NewerTbl, "copyBucket": mm.Copy, "appendToBucket": mm.Append} {
 		if f == nil {
@@ -1191,6 +1203,10 @@ func (m *Model) buildCache() {
 			m.ItemT[0], m.ItemEmb[0] = n, emb
 		}
 	}
+	// one generic item type shared by both caches (type item = itemOf[interface{}])
+	if m.ItemT[0] == "" && m.ItemT[1] != "" {
+		m.ItemT[0], m.ItemEmb[0] = m.ItemT[1], m.ItemEmb[1]
+	}
 	for i := 0; i < 2; i++ {
 		if m.ItemT[i] == "" {
 			m.Problems = append(m.Problems, fmt.Sprintf("cache item type of twin %d not found (struct with an int64 expiration and a bool predicate method)", i))
@@ -1285,4 +1301,41 @@ func CounterOwner(v ssa.Value) ssa.Value {
 		}
 	}
 	return v
+}
+
+// UniqueArg: the argument passed for parameter p when p's function has exactly one static call site in the program
+// (a helper extracted from its only caller); nil otherwise.
+func (mm *MapModel) UniqueArg(p *ssa.Parameter) ssa.Value {
+	f := p.Parent()
+	if f == nil {
+		return nil
+	}
+	idx := -1
+	for i, q := range f.Params {
+		if q == p {
+			idx = i
+		}
+	}
+	if idx < 0 {
+		return nil
+	}
+	var site ssa.CallInstruction
+	n := 0
+	for _, g := range mm.Funcs {
+		if g == f {
+			continue
+		}
+		for _, b := range g.Blocks {
+			for _, in := range b.Instrs {
+				if c, ok := in.(ssa.CallInstruction); ok && Callee(c) == f {
+					site = c
+					n++
+				}
+			}
+		}
+	}
+	if n != 1 || idx >= len(site.Common().Args) {
+		return nil
+	}
+	return site.Common().Args[idx]
 }
